@@ -6,11 +6,11 @@ import common
 READY = True
 
 META = {
-    "technique": "Lean 4 proof over an output state machine (sink script x write_all x WriteWrapper x capture stack x VM op sequence) + differential fault injection at every write call of real renders",
+    "technique": "Lean 4 proof over an output state machine (sink script x write_all x WriteWrapper x capture stack x VM op sequence x user-code strategies), parametric in the facts of the source (CodeFacts) which are read off regenerated tables (write sites, result flow of every output handle, Output creations, adapter guards/stores, boundary arms) + differential fault injection at every write call of real renders, model input = the engine's real operation log",
     "category": "proof",
-    "text": "Kernel-checked theorems for EVERY sequence of output operations and EVERY per-call sink behaviour (accept all / k bytes / half / zero / Err of any kind incl. Interrupted, the Err being ANY error token: bare kind, raw OS error, string / custom payload, a payload that is itself an engine error of any kind incl. WriteFailure with a source chain, a nested io::Error): the bytes the sink accepted are a prefix of the string the plain render builds; a call at which the sink failed is the last call it sees; the API then returns WriteFailure whose source is exactly the sink's error token, untouched (whatever include/super nesting was unwound, whatever the token looks like: boundary_returns_token_untouched, source_is_never_unwrapped), never Ok, never another kind, never a panic; without a sink failure result and bytes equal the plain render's; captured/discarded regions and evaluations on an Output of their own (macros, caller(), Expression::eval, block rendering from a function: Prog.own) never reach the sink. The adapter is sticky (sticky_after_error): once it holds an error no later write of the engine or of user code of ANY behaviour (UserCode strategies that see each write result and continue, swallow, return Ok) reaches the sink or changes the slot, and C19 holds with such user code (C19_with_user_strategies). write_failure / take_err / check, the check/take_err arms of both APIs and the sticky guards of WriteWrapper's methods are tied to tables regenerated from output.rs, template.rs, vm/state.rs (a branch that inspects the io::Error before wrapping it, a missing guard, a missing check breaks a `decide` theorem). The model is tied to /repo by running real templates (fixed set + generated: macros, call blocks, set/filter blocks, includes, imports, inheritance with super, recursive loops, autoescape, big values, custom objects) through Template::render_captured_to and State::render_block_to_write (direct, from a template function, with a well-behaved / a careless custom formatter that also returns look-alike WriteFailure errors of its own) into an instrumented io::Write that fails at every k-th write call with every behaviour and with its io::Error built in 11 ways (bare ErrorKind, from_raw_os_error incl. EINTR, String, own error type, minijinja::Error payload of kind InvalidOperation / UndefinedError / WriteFailure / TemplateNotFound / with a source chain / a WriteFailure whose own source is an io::Error that reads exactly like the sink's, another io::Error as payload), on the hooked and on the unhooked build; the oracle demands kind()==WriteFailure and that source() IS the sink's error: same kind, same raw OS code, same payload object by address (plus id and construction read off the returned error and compared with the model's token). The REAL sequence of output operations of every render (feature-guarded hook verif_hooks::output) and the failure script are fed to the Lean model: the model's capture stack must route every real write where the engine did and pop the values the engine popped, and run(ops, sink) must reproduce the sink's calls, accepted bytes, checksums, log digest, result token and the number of operations executed; the log of every failing run must be the clean log cut at the failing write; the log of the plain String render must equal the writer run's. A second family of programs is generated as terms of the model's structured layer (set/filter blocks, macros and call blocks on their own Output, includes, inheritance with super, loops, errors, a template function rendering a block), unparsed to templates, and the big-step exec of the term is compared with the engine (APIs full, fmt, fn), its flattening must equal the real operation log. The property itself is evaluated on the real observations.",
+    "text": "Kernel-checked theorems for EVERY sequence of output operations and EVERY per-call sink behaviour (accept all / k bytes / half / zero / Err of any kind incl. Interrupted, the Err being ANY error token: bare kind, raw OS error, string / custom payload, a payload that is itself an engine error of any kind incl. WriteFailure with a source chain, a nested io::Error): the bytes the sink accepted are a prefix of the string the plain render builds; a call at which the sink failed is the last call it sees; the API then returns WriteFailure whose source is exactly the sink's error token, untouched (whatever include/super nesting was unwound, whatever the token looks like: boundary_returns_token_untouched, source_is_never_unwrapped), never Ok, never another kind, never a panic; without a sink failure result and bytes equal the plain render's; captured/discarded regions and evaluations on an Output of their own (macros, caller(), Expression::eval, block rendering from a function: Prog.own) never reach the sink. The adapter is sticky (sticky_after_error): once it holds an error no later write of the engine or of user code of ANY behaviour (UserCode strategies that see each write result and continue, swallow, return Ok) reaches the sink or changes the slot, and C19 holds with such user code (C19_with_user_strategies). write_failure / take_err / check, the check/take_err arms of both APIs and the sticky guards of WriteWrapper's methods are tied to tables regenerated from output.rs, template.rs, vm/state.rs (a branch that inspects the io::Error before wrapping it, a missing guard, a missing check breaks a `decide` theorem). The model is tied to /repo by running real templates (fixed set + generated: macros, call blocks, set/filter blocks, includes, imports, inheritance with super, recursive loops, autoescape, big values, custom objects) through Template::render_captured_to and State::render_block_to_write (direct, from a template function, with a well-behaved / a careless custom formatter that also returns look-alike WriteFailure errors of its own) into an instrumented io::Write that fails at every k-th write call with every behaviour and with its io::Error built in 11 ways (bare ErrorKind, from_raw_os_error incl. EINTR, String, own error type, minijinja::Error payload of kind InvalidOperation / UndefinedError / WriteFailure / TemplateNotFound / with a source chain / a WriteFailure whose own source is an io::Error that reads exactly like the sink's, another io::Error as payload), on the hooked and on the unhooked build; the oracle demands kind()==WriteFailure and that source() IS the sink's error: same kind, same raw OS code, same payload object by address (plus id and construction read off the returned error and compared with the model's token). The REAL sequence of output operations of every render (feature-guarded hook verif_hooks::output) and the failure script are fed to the Lean model: the model's capture stack must route every real write where the engine did and pop the values the engine popped, and run(ops, sink) must reproduce the sink's calls, accepted bytes, checksums, log digest, result token and the number of operations executed; the log of every failing run must be the clean log cut at the failing write; the log of the plain String render must equal the writer run's. A second family of programs is generated as terms of the model's structured layer (set/filter blocks, macros and call blocks on their own Output, includes, inheritance with super, loops, errors, a template function rendering a block), unparsed to templates, and the big-step exec of the term is compared with the engine (APIs full, fmt, fn), its flattening must equal the real operation log. The property itself is evaluated on the real observations. Session 3: every fact of the source the model rests on is a switch of a parametric model (CodeFacts: sticky guard and error store per adapter method, check/take_err per entry point, propagation per write site) whose values are READ OFF regenerated tables (codeFacts); code_facts_hold proves them all on, each_code_fact_is_needed exhibits a violating render for every switch that is off, and the model driver answers the flat correspondence stream with renderToF codeFacts (the model instantiated with what the source says now). every_write_result_propagates: no write call (67 sites) and no other use of a handle of the output (127 uses of &mut Output / &mut Formatter / dyn fmt::Write / builders / wrapper structs / Outputs created in place, crate-wide) drops, inspects or unwraps the Result; every_entry_point_checks_wrapper: every Output::new of the crate is over a String, the null writer, or a WriteWrapper whose evaluation result goes through check (Ok arm) and take_err (Err arm). render_stops_at_failing_write: the evaluation ends at the failing base write (nothing behind it executed) - for every op sequence; forwarding_user_code_is_engine_ops: user code that forwards (`?` after every write) is part of the op sequence, so C19 holds for it without the panic escape. C19_main: C19_statement for any engine that is the model instantiated with codeFacts (H_ops, the one validated hypothesis). The oracle also demands that rendering STOPS: the engine's operation log must end at the failed write (user code of the harness that goes on / swallows is flagged by the harness itself and relaxes this exactly as far as it went). Coverage ties: every ValueRepr variant (regenerated) must be emitted into a failing writer, every instruction whose arm of the evaluation loop touches the output (regenerated) must occur in the programs.",
     "design_ref": "DESIGN.md §3 C19",
-    "level_note": "Trusted: Lean kernel; hand transcription of output.rs (Output, WriteWrapper, take_err), std write_all, and the emit/capture/include/super skeleton of vm/mod.rs into MJ/Model/Output.lean. That the VM performs a sink-independent op sequence and stops at the first fmt::Error (every emit site propagates it) is validated, not proved about the Rust source: by the hook log (same operations for String and io::Write base writers; every failing run's log is a prefix of the clean log ending at the failing write) and the fault injection at every write call of every program. The hook's routing annotation is computed from the capture stack (the raw target pointer is covered only through the sink's calls). The harness builds minijinja with verif_hooks on (write_fmt is then routed piecewise through the logging write_str/write_char). Custom formatters / Object::render implementations that swallow fmt::Error are outside the property. Round 3: the Emit layer (write_escaped chunking, HtmlEscape pieces with the escape table regenerated from source, fast paths, user code failing by itself) is inside the model and compared piece by piece with the engine; all write call sites of the output/value-formatting code are regenerated from source, classified, and a non-propagating site fails a `decide` theorem; Interrupted-retry is a theorem; the sink-level streams are re-run against minijinja compiled WITHOUT verif_hooks and must equal the hooked build.",
+    "level_note": "Trusted: Lean kernel; the regex-level extractors of lib/tables/c19.py (a shape they do not understand is classified `unknown`/`inspected` and fails a theorem, it is never taken for `propagate`); hand transcription of std::io::Write::write_all and of the emit/capture/include/super skeleton of vm/mod.rs into MJ/Model/Output.lean. STILL ONLY VALIDATED (named hypothesis H_ops = EngineIsModel of C19_main): that for every program the engine performs ONE sequence of output operations and calls of user code, independent of the base writer, each issued by a write site of the table, through one of the two functions that build a WriteWrapper - validated by the hook log of every run (same operations for String and io::Write base writers; the log of every failing run is the clean log cut at the failing write and, since session 3, ENDS there unless user code of the harness went on; run(ops, sink) reproduces the sink's calls, bytes, digest, result token, operations executed) and by fault injection at every write call of every program, on the hooked and the unhooked build. NOT MODELLED: std's fmt machinery (Formatter adapters, padding, Display of numbers, DebugList/DebugMap stop at the first fmt::Error) - validated by failure injection at every piece and by the stop predicate; serde_json; the routing annotation of the hook is computed from the capture stack (the raw target pointer is covered only through the sink's calls). OUTSIDE THE PROPERTY: user formatters / Object::render that swallow a fmt::Error make the engine go on until its next write (`rendering stops` then holds only at the sink: sticky adapter + check, C19_with_user_strategies); a sink that violates io::Write's contract (n > buf.len()) or answers Interrupted forever. Round 3: the Emit layer (write_escaped chunking, HtmlEscape pieces with the escape table regenerated from source, fast paths, user code failing by itself) is inside the model and compared piece by piece with the engine; Interrupted-retry is a theorem; the sink-level streams are re-run against minijinja compiled WITHOUT verif_hooks and must equal the hooked build. MOVED FROM VALIDATED TO PROVED in session 3: (1) `the VM stops at the first fmt::Error because every emit site propagates it` was validated by the hook log only; now every_write_result_propagates is a decided theorem over two regenerated tables (C19_WRITE_SITES 67 rows incl. the forwarding writes of render_guarded's tracker; C19_RESULT_FLOW 127 rows: every call that is handed a handle of the output, every closure value, every bound result incl. `inspected` results such as `if rv.is_err()`), engine_loop_is_run proves that the loop with the table's classification IS run (stops at the first error), render_stops_at_failing_write proves for ALL op sequences that nothing behind the failing base write is executed, and sink_claims_for_any_site_classification proves that even a site that drops its fmt::Error cannot break the sink-level claims. (2) `both entry points check the adapter` was pinned as a literal table; now every_entry_point_checks_wrapper quantifies over every Output::new/Output::null of the crate (C19_OUTPUT_CREATIONS, base writer classified, one level of callers resolved) and over the boundary sites, codeFacts.api reads the arms per entry point, both_entry_points_are_renderTo proves that Template::render_captured_to and State::render_block_to_write are the same renderTo, and each_code_fact_is_needed shows the violating render when an arm is missing at ONE entry point (seeded C19-7). (3) the adapter's guard/store were pinned literals; now they are switches of WriteWrapper.writeBytesF read off the tables, with the non-sticky / non-storing behaviour modelled and shown to violate C19. (4) well-behaved user code (`?` after every write: UserCode.forwards) was covered only by the `or the user code panicked later` form; now forwarding_user_code_is_engine_ops / C19_with_forwarding_user_code give full strength. (5) C19_statement (about an engine: all programs x all sink behaviours) and C19_main make the remaining gap one named hypothesis (H_ops). Not possible to prove in Lean: H_ops itself (it is a statement about rustc's semantics of vm/mod.rs, not about a table).",
 }
 
 
@@ -36,6 +36,11 @@ def script_class(script):
     if last.startswith("E"):
         return "err:" + last[1:3]
     return {"S0": "zero", "S1": "short1", "H": "half"}.get(last, last)
+
+
+def strip_stop(fields):
+    """the oracle fields without `stop=` (read off the operation log, which only the hooked build has)"""
+    return " ".join(x for x in fields.split(" ") if not x.startswith("stop="))
 
 
 def kv(s):
@@ -79,6 +84,11 @@ def judge(r, case, api, clean_res, m, o):
         r.oracle_failure(case, "bytes accepted by the writer are not a prefix of the plain render's string", "delivered-not-prefix:" + ac); n += 1
     if o["after"] != "0":
         r.oracle_failure(case, "%s write call(s) after the writer reported %s" % (o["after"], o["fail"]), "write-after-error:" + ac); n += 1
+    if o.get("stop") == "0":
+        # "rendering stops": the engine's operation log goes on behind the failed write although no user code
+        # of the harness dropped the error (uf: what the harness's user code did in this run)
+        r.oracle_failure(case, "the render went on after the writer reported %s: operations behind the failed write (user code flags %s)" % (o["fail"], o.get("uf")),
+                         "continues-after-error:" + ac); n += 1
     if o["fail"].startswith("badscript"):
         r.broken.append("harness script builds an io::Error of another kind than it names: %s %s" % (case, o["fail"]))
     elif o["fail"] != "none":
@@ -103,9 +113,9 @@ def judge(r, case, api, clean_res, m, o):
 
 
 def run(r):
-    r.rule = ("fixed programs (26: text, loops, macros/call blocks, set/filter blocks, includes, imports, 2- and 3-level inheritance "
+    r.rule = ("fixed programs (59: text, loops, macros/call blocks, set/filter blocks, includes, imports, 2- and 3-level inheritance "
               "with super, recursive loops, autoescape html/json, big values, custom object, runtime errors, block rendering from a "
-              "function) + generated programs from a template grammar (VERIF_SEED); per program x API (render_captured_to, same "
+              "function, a value of every representation nested and one by one incl. invalid values, objects and formatters that go on after a failed write) + generated programs from a template grammar (VERIF_SEED); per program x API (render_captured_to, same "
               "with custom formatter, render_block_to_write per block, render_block_to_write inside a function): failure at every "
               "write call k < W of the clean run with BrokenPipe/Other/WouldBlock/Interrupted, the io::Error built in 11 ways "
               "rotating over the positions (every construction meets every API; all 11 at every position of the small fixed "
@@ -114,14 +124,16 @@ def run(r):
               "hard failure; a third family generated as terms of the model's structured layer and unparsed to templates "
               "(APIs full, fmt, fn); 8 expressions evaluated on Output::null. Model input = the engine's real output-operation log. "
               "The harness runs as 8 (program, API) shards + 1 emit stream + 3 unhooked shards in parallel. "
+              "Per case the oracle evaluates: prefix, nothing after the failure, WriteFailure with THE sink's error as source, clean == plain, and "
+              "`rendering stops` (the engine's operation log ends at the failed write). "
               "A case is non-trivial when it is distinct and the clean run makes at least one write call")
     r.assumptions = [
         "the sink honours io::Write::write's contract n <= buf.len() and does not answer Interrupted forever",
         "std's fmt machinery (Formatter adapters, Display of numbers, DebugList/DebugMap) stops at the first fmt::Error — validated by failure injection at every piece, not modelled",
         "user supplied formatters and Object::render implementations propagate the fmt::Error of the writer they are given",
     ]
-    r.regen_tables(["C19_WRITE_SITES", "C19_WRITER_APIS", "C19_WRAPPER_SITES", "C19_SMALL_INT_LIMIT", "C19_UNHOOKED_BODIES", "C19_WRITEWRAPPER_METHODS", "C19_TRACKER_UPDATE", "HTML_ESCAPE_TABLE",
-                    "C19_BOUNDARY_BODIES", "C19_BOUNDARY_SITES", "C19_WRITEWRAPPER_STICKY"])
+    tables = r.regen_tables(["C19_VALUE_REPRS", "C19_OUT_INSTRUCTIONS", "C19_WRITE_SITES", "C19_WRITER_APIS", "C19_WRAPPER_SITES", "C19_SMALL_INT_LIMIT", "C19_UNHOOKED_BODIES", "C19_WRITEWRAPPER_METHODS", "C19_TRACKER_UPDATE", "HTML_ESCAPE_TABLE",
+                    "C19_BOUNDARY_BODIES", "C19_BOUNDARY_SITES", "C19_WRITEWRAPPER_STICKY", "C19_RESULT_FLOW", "C19_OUTPUT_CREATIONS"])
     t0 = time.time()
     # the proof build and the two harness builds are independent: run them side by side
     with ThreadPoolExecutor(max_workers=3) as ex:
@@ -190,6 +202,8 @@ def run(r):
     hooked = {}        # case key -> (sink-level fields, oracle fields) of the hooked build
     n_prog = n_skip = n_fail_cases = n_ok_cases = n_routed = n_prefix = n_emit = n_emit_det = 0
     apis_with_failures = set()
+    reprs_emitted = set()
+    opcodes_seen = set()
     forms_by_api = {}
     skipped_pids = set()
     for i, line in enumerate(lines):
@@ -237,6 +251,11 @@ def run(r):
             r.count("prog " + key[:200], cur_w > 0)
             case0 = "%s %s -" % (pid, api)
             r.hist["env_config"][o.get("cfg", "?")] += 1
+            if cur_w > 0:
+                for x in o.get("reprs", "-").split("+"):
+                    reprs_emitted.add(x)
+                    r.hist["emitted_value_repr"][x] += 1
+                opcodes_seen |= set(o.get("ins", "-").split("+"))
             r.hist["clean_result"][o["res"] + "/plain:" + o["plain"]] += 1
             if o["res"] == "panic" and o["plain"] != "panic":
                 r.oracle_failure(case0, "clean render into a writer panicked", "panic:" + api_class(api))
@@ -292,7 +311,8 @@ def run(r):
             r.broken.append("operation log of a run is not the clean run's log cut at the failing write: %s %s" % (key, m["ops"]))
         else:
             n_prefix += 1
-        hooked[key] = (f[2].rsplit(" ops=", 1)[0], f[3])
+        hooked[key] = (f[2].rsplit(" ops=", 1)[0], strip_stop(f[3]))
+        r.hist["stops_at_failed_write"]["%s uf=%s" % (o.get("stop"), o.get("uf"))] += 1
         judge(r, key, api, clean_res.get((pid, api), "?"), m, o)
         if model is not None:
             mf = model[i].split("\t")
@@ -332,7 +352,7 @@ def run(r):
                 h = hooked.get(key)
                 if h is None:
                     r.broken.append("unhooked build ran a case the hooked build did not: " + key[:120])
-                elif h != (f[2].rsplit(" ops=", 1)[0], f[3]):
+                elif h != (f[2].rsplit(" ops=", 1)[0], strip_stop(f[3])):
                     r.model_disagreement("unhooked " + key, "unhooked: " + f[2] + " | " + f[3], "hooked: " + h[0] + " | " + h[1])
             if n_unhooked < 20000:
                 r.broken.append("unhooked stream degenerate: %d cases" % n_unhooked)
@@ -363,6 +383,23 @@ def run(r):
         r.broken.append("structured/op-log tie degenerate: flatten verdicts %s, constructs %s, routed writes %d" % (dict(sf), dict(sc), n_routed))
     if n_fail_cases < 1000 or n_ok_cases < 1000 or not {"full", "fmt", "ufmt", "cfmt", "block", "ublock", "cblock", "fn"} <= apis_with_failures:
         r.broken.append("fault injection degenerate: %d failing / %d clean cases, apis %s" % (n_fail_cases, n_ok_cases, sorted(apis_with_failures)))
+    # every representation of a value (regenerated: the variants of `enum ValueRepr`) must have been
+    # printed into a failing sink
+    want = set()
+    for v in (tables["items"].get("C19_VALUE_REPRS") or []):
+        want |= {"String", "SafeString"} if v == "String" else {v}
+    # an invalid value never reaches an `Emit` (looking it up reports its error: f57/f58 end that way);
+    # it is printed nested in sequences and maps (programs f57, f58: `all_kinds`, `inv_seq`)
+    want.discard("Invalid")
+    r.extra["value_reprs_emitted"] = sorted(reprs_emitted - {"-"})
+    if model is not None and want - reprs_emitted:
+        r.broken.append("fault injection degenerate: no program prints a value of representation %s into the failing writer" % sorted(want - reprs_emitted))
+    # every instruction whose arm of the evaluation loop touches the output (regenerated) must occur in
+    # the programs rendered into the failing writer
+    want_ins = set(tables["items"].get("C19_OUT_INSTRUCTIONS") or [])
+    r.extra["output_instructions_in_programs"] = sorted(want_ins & opcodes_seen)
+    if want_ins - opcodes_seen:
+        r.broken.append("fault injection degenerate: no program contains the instruction(s) %s, whose arm of the evaluation loop uses the output" % sorted(want_ins - opcodes_seen))
     # every construction of the sink's io::Error must have met every API (hooked), and the unhooked build
     r.extra["error_forms_by_api"] = {a: sorted(v) for a, v in sorted(forms_by_api.items())}
     for a in ("full", "fmt", "ufmt", "cfmt", "block", "ublock", "cblock", "fn"):
